@@ -24,28 +24,21 @@ def replay(sig, V, wd):
 
 def classify_for(name):
     def classify(ctx, harness, f):
+        """pattern 'premature-full-after-rollback': the history is linearizable once 'full' answers are accepted
+        unconditionally AND some try_push took its own insertion back (committed() rollback) in this execution"""
         out = {'harness': name, 'pattern': 'other'}
-        if 'not linearizable' not in f.get('detail', ''):
+        if 'not linearizable' not in f.get('detail', '') or 'q=kfb' not in f.get('case', ''):
             return out
         (st, det), txt = X.replay_case(harness, f['case'], ctx['wd'], ('--trace',))
-        lines = X.trace_lines(txt)
-        cur = {}      # tid -> (op, rolled_back)
-        spurious = False
-        other_full = False
-        for l in lines:
+        rolled = False
+        for l in X.trace_lines(txt):
             w = l.split()
-            t = w[0]
-            if w[1] == 'inv':
-                cur[t] = [w[2], False]
-            elif w[1] == 'RMW' and w[3] == 'rlx' and w[4].startswith('&') and not w[5].startswith('&') and t in cur and cur[t][0] == 'push':
-                cur[t][1] = True          # committed() took its own insertion back (relaxed CAS pointer -> empty)
-            elif w[1] == 'res' and t in cur:
-                if w[2] == 'full':
-                    if cur[t][1]: spurious = True
-                    else: other_full = True
-                cur.pop(t, None)
-        if spurious and not other_full:
-            out['pattern'] = 'full-after-own-rollback'
+            if len(w) >= 6 and w[1] == 'RMW' and w[3] == 'rlx' and w[4].startswith('&') and not w[5].startswith('&'):
+                rolled = True
+        relaxed = f['case'].replace('cfg ', 'cfg relaxfull=1 ', 1)
+        (st2, det2), _ = X.replay_case(harness, relaxed, ctx['wd'], ())
+        if rolled and st2 == 0:
+            out['pattern'] = 'premature-full-after-rollback'
         return out
     return classify
 
